@@ -28,7 +28,7 @@ RULE = ('one case = one seeded scenario (2-4 contender processes x 1-3 lock/unlo
 COMPONENTS = {
     'real': ['mapproxy.util.lock.FileLock', 'mapproxy.util.lock.SemLock', 'mapproxy.util.ext.lockfile.LockFile',
              'mapproxy.util.fs.ensure_directory', 'CPython io buffering'],
-    'stub': ['kernel file system + flock (SimFS)', 'clock (SimClock)', 'thread scheduler choice (SimSched)',
+    'stub': ['kernel file system + flock (SimFS)', 'clock (SimClock; the wall clock may be set back, sleepers keep their remaining sleep)', 'thread scheduler choice (SimSched)', 'housekeeping task standing in for the other requests of a server that clean the lock directory (it calls the real cleanup_lockdir)',
              'os.getpid'],
 }
 ASSUMPTIONS = [
